@@ -520,6 +520,48 @@ theorem C07_call_waitthread_partial :
   · intro fuel C s t th h hth hv
     exact deleteThread_releases_callers fuel h hth hv
 
+/-- a program in which no script releases a `waitthread` caller behind the callee's back: no `local.p0 wait d`
+    (`Wait(d)` sent to the spawning thread) and no `local.p0 notify 0` -/
+def Instr.plainWaitthread : Instr → Prop
+  | .waitParent _ => False
+  | .notifyParent n => n ≠ 0
+  | _ => True
+
+def PlainWaitthread (p : List (List Instr)) : Prop := ∀ body ∈ p, ∀ ins ∈ body, ins.plainWaitthread
+
+instance (i : Instr) : Decidable i.plainWaitthread := by
+  cases i <;> unfold Instr.plainWaitthread <;> infer_instance
+
+instance (p : List (List Instr)) : Decidable (PlainWaitthread p) := by unfold PlainWaitthread; infer_instance
+
+/-- a realistic `waitthread` program (caller waits for a callee that waits 5 ms and ends with a value) is in the class;
+    the `hub` generator family is **not** (it uses `local.p0 wait d`) -/
+example : PlainWaitthread [[.mark 1, .waitthread 1, .mark 2], [.wait 5, .end_ (.lit 7)]] ∧
+    ¬ PlainWaitthread [[.thread 1], [.waitParent 5]] := by decide
+
+/-- **`waitthread`: released only through three doors — call level (partial).**  For every host operation (hence for
+    every frame, host call, Reset …, with all nested executions), in the ledger of notify-table operations of that
+    operation: a thread `c` registered on channel 0 of `t` before is still registered after, **or** the operation
+    performed `Unregister(0)` on `t`, or `UnregisterAll` on `t`, or a `CancelWaiting` of `c` itself.  No invariant, no
+    fuel condition.
+    Who opens these doors: `UnregisterAll(t)` only `t`'s destructor; `Unregister(0)` on a thread: `t`'s destructor (inside
+    `UnregisterAll`) and the instruction `local.p0 notify 0` — a script `o notify n` always addresses an alive *object* —
+    which `PlainWaitthread` excludes; `CancelWaiting(c)`: `c`'s own `Stop()` — when `c` is destroyed, when it is re-timed
+    by `Unregister(0)` (door 1), or when another thread sends it `Wait(d)` (`local.p0 wait d`), which `PlainWaitthread`
+    excludes.  *Missing*: the last sentence is an argument about callers, not a theorem: proving "`Stop()` of a `waiting`
+    thread is only reached from these three places" needs the program-dependent invariant pass (≈ the size of `jAll`);
+    the `hub` family is outside `PlainWaitthread` anyway. -/
+theorem C07_call_waitthread_only_release_partial (s : State) (op : HostOp) (hne : op ≠ .reset) (c t : Nat)
+    (h : c ∈ Tbl.getD s.notify (t, 0)) :
+    c ∈ Tbl.getD (op.apply s).notify (t, 0) ∨
+      ∃ ops : List NOp, nRun s.notify ops = (op.apply s).notify ∧ ∃ o ∈ ops,
+        o = .notify t 0 ∨ (∃ al list, o = .purge al c 0 list) ∨ (∃ al keys, o = .multiPurge al c keys) ∨
+          o = .removeOwner t := by
+  obtain ⟨ops, hr⟩ := HostOp.apply_nn s op hne
+  rcases nRun_keeps ops s.notify c t 0 h with h1 | ⟨o, ho, hrel⟩
+  · left; rw [← hr]; exact h1
+  · exact Or.inr ⟨ops, hr, o, ho, hrel⟩
+
 /-- non-vacuity: a thread that registered `endon` on `level` and then waits is destroyed by the notify of another
     thread, which proceeds (`m9`) -/
 example : (runOps {} [.script [[.thread 1, .wait 5, .notify 50 7, .mark 9], [.endon 50 7, .wait 100, .mark 2]] [0, 0],
